@@ -81,6 +81,15 @@ Theorem C14_copies_slice_any_block_sizes : forall content bs from to ops,
 Proof. exact copies_slice_any_block_sizes. Qed.
 Print Assumptions C14_copies_slice_any_block_sizes.
 
+(* a copy watched for n turns while n full blocks fit strictly inside the range: exactly the first n * bs bytes, no completion,
+   no error yet (what the statement of family copierbig checks on sources far larger than memory) *)
+Theorem C14_block_copy_progress : forall n k c,
+  healthy c -> c_pending c = PBlock -> 0 <= c_pos c -> c_pos c + Z.of_nat n * c_bs c < hi c ->
+  let l := snd (c_run k c (turns n)) in
+  cwritten l = slice (c_content c) (c_pos c) (Z.of_nat n * c_bs c) /\ cfinished l = 0%nat /\ cerrors l = 0%nat.
+Proof. exact block_copy_progress. Qed.
+Print Assumptions C14_block_copy_progress.
+
 Example C14_block_sizes_nonvacuous :
   let ops := [CTurn; CSetBs 4; CTurn; CSetBs 1; CTurn; CTurn; CTurn; CTurn; CTurn] in
   Forall bs_op ops /\ (length (B "abcdefg") <= nturns ops)%nat /\
